@@ -45,6 +45,8 @@ pub struct Scenario {
 	pub filter: Option<Arc<FilterFn>>,
 	/// offer Drain as an event (collapses the rest of the pipeline in one step)
 	pub drain_event: bool,
+	/// enumerate crash images of every edge's event (E2)
+	pub crash: Option<crate::crashmc::CrashCfg>,
 	pub check_iter_rc: bool,
 }
 
@@ -68,6 +70,7 @@ impl Scenario {
 			post: None,
 			filter: None,
 			drain_event: false,
+			crash: None,
 			check_iter_rc: true,
 		}
 	}
@@ -108,6 +111,7 @@ pub struct Stats {
 	pub rejected_commits: u64,
 	pub levels: Vec<(usize, usize)>,
 	pub known_hits: std::collections::BTreeMap<String, u64>,
+	pub crash: crate::crashmc::CrashStats,
 	pub complete: bool,
 	pub capped_reason: Option<String>,
 }
@@ -128,6 +132,7 @@ impl Stats {
 		for (k, v) in o.known_hits.iter() {
 			*self.known_hits.entry(k.clone()).or_insert(0) += v;
 		}
+		self.crash.merge(&o.crash);
 		self.complete &= o.complete;
 		if self.capped_reason.is_none() {
 			self.capped_reason = o.capped_reason.clone();
@@ -217,6 +222,7 @@ pub struct EdgeOut {
 	pub pm_mask: u8,
 	/// ids of listed known findings that this execution ran into (tolerated, reported once)
 	pub known: Vec<String>,
+	pub crash: crate::crashmc::CrashStats,
 }
 
 pub enum EdgeRes {
@@ -239,15 +245,31 @@ pub fn run_edge(scn: &Scenario, dir: &Path, hist: &[Ev], ev: Option<&Ev>) -> Edg
 }
 
 fn run_edge_here(scn: &Scenario, dir: &Path, hist: &[Ev], ev: Option<&Ev>) -> EdgeRes {
+	if scn.crash.is_some() {
+		crate::exec::wipe_dir(dir);
+		crate::crash::start(dir);
+	}
 	let mut ex = match build(scn, dir) {
 		Ok(ex) => ex,
-		Err(f) => return EdgeRes::Fail(f),
+		Err(f) => {
+			crate::crash::stop();
+			return EdgeRes::Fail(f)
+		},
 	};
+	ex.record_prefix = scn.crash.is_some();
+	let r = run_edge_inner(scn, hist, ev, ex);
+	crate::crash::stop();
+	r
+}
+
+fn run_edge_inner(scn: &Scenario, hist: &[Ev], ev: Option<&Ev>, mut ex: Exec) -> EdgeRes {
 	let res = (|| -> Result<Option<EdgeOut>, Fail> {
 		for e in scn.init.iter().chain(hist.iter()) {
 			ex.apply(e)?;
 		}
 		let rejected_before = ex.rejected;
+		let ops_before = if scn.crash.is_some() { crate::crash::ops_len() } else { 0 };
+		let pm_before = ex.pm.clone();
 		if scn.pm && ev.is_some() {
 			// Stage events the pipeline model calls disabled here are not given an edge of their own;
 			// instead each is executed right now and must return false and leave the digest unchanged.
@@ -284,6 +306,24 @@ fn run_edge_here(scn: &Scenario, dir: &Path, hist: &[Ev], ev: Option<&Ev>) -> Ed
 			}
 			post(&mut ex, &full)?;
 		}
+		let mut crash_stats = crate::crashmc::CrashStats::default();
+		if let Some(cc) = &scn.crash {
+			let ops = crate::crash::stop();
+			// conformance of the shadow file system to the real one
+			let mut sh = crate::crash::Shadow::new();
+			for op in ops.iter() {
+				crate::crash::apply(&mut sh, op);
+			}
+			crate::crash::compare_with_dir(&sh, &ex.dir).map_err(|m| Fail::new("machinery", format!("shadow file system diverged from the real files: {}", m)))?;
+			let mut models = vec![crate::model::Model::new(&scn.cfg)];
+			models.extend(ex.prefix.iter().cloned());
+			let prefix_obs: Vec<String> = models.iter().map(|m| crate::observe::observe_model(m, &scn.universe)).collect();
+			let ctx = crate::crashmc::Ctx { cfg: &scn.cfg, universe: scn.universe.clone(), prefix_obs, prefix: &models, accepted: &ex.accepted_txs, crash: cc, property: &scn.property };
+			let from = if ev.is_none() { if cc.creation { 0 } else { ops.len() } } else { ops_before };
+			let (lo0, lo1) = if scn.pm { (pm_before.synced, pm_before.logged) } else { (0, 0) };
+			let what = format!("during {}", ev.map_or("creation".to_string(), |e| e.short()));
+			crate::crashmc::enumerate(&ctx, &ops, from, lo0, lo1, models.len() - 1, &what, &mut crash_stats)?;
+		}
 		let d = ex.digest();
 		let obs = ex.observe()?;
 		let files = hash_dir(&ex.dir);
@@ -316,6 +356,7 @@ fn run_edge_here(scn: &Scenario, dir: &Path, hist: &[Ev], ev: Option<&Ev>) -> Ed
 			rejected: ex.rejected > rejected_before,
 			pm_mask: ex.pm.mask(),
 			known,
+			crash: crash_stats,
 		}))
 	})();
 	match res {
@@ -416,6 +457,7 @@ pub fn graph_search(scn: &Scenario, budget: &Budget) -> (Stats, Option<Found>) {
 			seen.insert(o.identity);
 			obs_seen.insert(o.obs);
 			stats.executions += 1;
+			stats.crash.merge(&o.crash);
 			root.pm_mask = o.pm_mask;
 		},
 		EdgeRes::Skip => unreachable!(),
@@ -490,6 +532,7 @@ pub fn graph_search(scn: &Scenario, budget: &Budget) -> (Stats, Option<Found>) {
 					for k in o.known.iter() {
 						*stats.known_hits.entry(k.clone()).or_insert(0) += 1;
 					}
+					stats.crash.merge(&o.crash);
 					if o.rejected && frontier[*ni].rejects >= scn.max_rejects {
 						// the rejected commit was executed and judged; its successor state is beyond the bound
 						stats.transitions += 1;
@@ -655,7 +698,9 @@ pub fn encode_edge(r: &EdgeRes) -> Vec<u8> {
 		EdgeRes::Skip => json!({"t": "skip"}),
 		EdgeRes::Fail(f) => json!({"t": "fail", "kind": f.kind, "msg": f.msg}),
 		EdgeRes::Ok(o) => json!({"t": "ok", "id": format!("{:032x}", o.identity), "model": o.model, "obs": o.obs,
-			"ms": o.multi_stage, "pm": o.pm_steps, "rej": o.rejected, "mask": o.pm_mask, "known": o.known}),
+			"ms": o.multi_stage, "pm": o.pm_steps, "rej": o.rejected, "mask": o.pm_mask, "known": o.known,
+			"cp": o.crash.crash_points, "ci": o.crash.images, "cd": o.crash.distinct_images, "cr": o.crash.recoveries, "cn": o.crash.nested_recoveries,
+			"cpl": o.crash.power_loss_images, "cmd": o.crash.max_dirty_pages, "csc": o.crash.subsets_capped, "crt": o.crash.recovered_to}),
 	};
 	serde_json::to_vec(&j).unwrap()
 }
@@ -674,6 +719,17 @@ pub fn decode_edge(b: &[u8]) -> EdgeRes {
 			rejected: j["rej"].as_bool().unwrap(),
 			pm_mask: j["mask"].as_u64().unwrap() as u8,
 			known: j["known"].as_array().unwrap().iter().map(|x| x.as_str().unwrap().to_string()).collect(),
+			crash: crate::crashmc::CrashStats {
+				crash_points: j["cp"].as_u64().unwrap(),
+				images: j["ci"].as_u64().unwrap(),
+				distinct_images: j["cd"].as_u64().unwrap(),
+				recoveries: j["cr"].as_u64().unwrap(),
+				nested_recoveries: j["cn"].as_u64().unwrap(),
+				power_loss_images: j["cpl"].as_u64().unwrap(),
+				max_dirty_pages: j["cmd"].as_u64().unwrap(),
+				subsets_capped: j["csc"].as_u64().unwrap(),
+				recovered_to: j["crt"].as_object().unwrap().iter().map(|(k, v)| (k.clone(), v.as_u64().unwrap())).collect(),
+			},
 		}),
 	}
 }
